@@ -92,7 +92,8 @@ Inductive gev :=
 | GAdded (h : handler) (w : watch)       (* registry mutation: (h,w) registered *)
 | GRemoved (h : handler) (w : watch)     (* registry mutation: (h,w) removed *)
 | GRemovedW (w : watch)                  (* ... every handler of w removed *)
-| GRemovedAll.                           (* ... every handler removed *)
+| GRemovedAll                            (* ... every handler removed *)
+| GSnap (w : watch) (hs : list handler). (* the dispatcher copied the handler set of w *)
 
 Inductive epc := ENew | ECheckPc | EPutPc | EExiting | EExited.
 
@@ -119,7 +120,8 @@ Definition init_of (fx : bool) : state :=
   {| handlers := []; watches := []; emitters := []; efw := []; ems := []; queue := []; lock := None;
      dstarted := false; dstop := false; dexited := false; dcur := None; dtodo := []; dcont := [];
      aconts := []; glog := []; fixed := fx |}.
-Definition init : state := init_of false.
+(* THE model: start() holds the observer lock (repair F16).  init_of false = the pinned start(). *)
+Definition init : state := init_of true.
 
 (* ---- field updates *)
 Definition set_handlers v s := {| handlers := v; watches := watches s; emitters := emitters s; efw := efw s; ems := ems s; queue := queue s; lock := lock s; dstarted := dstarted s; dstop := dstop s; dexited := dexited s; dcur := dcur s; dtodo := dtodo s; dcont := dcont s; aconts := aconts s; glog := glog s; fixed := fixed s |}.
@@ -346,7 +348,7 @@ Definition exec (s : state) (t : tid) (i : instr) (k : list instr) (inp : input)
       end
   | DSnap =>
       match dcur s with
-      | Some (e, w) => let hs := hauto w (handlers s) in go k (set_dtodo (hset w hs) (set_handlers hs s))
+      | Some (e, w) => let hs := hauto w (handlers s) in go k (say (GSnap w (hset w hs)) (set_dtodo (hset w hs) (set_handlers hs s)))
       | None => None
       end
   | DTurns =>
@@ -465,7 +467,8 @@ Fixpoint run (s : state) (tr : list label) : option state :=
   | l :: tr' => match step s l with Some s' => run s' tr' | None => None end
   end.
 
-Definition reachable (s : state) : Prop := exists fx tr, run (init_of fx) tr = Some s.
+Definition reachable (s : state) : Prop := exists tr, run init tr = Some s.
+Definition reachable_pinned (s : state) : Prop := exists tr, run (init_of false) tr = Some s.
 
 (* ---- enabledness, deadlock, termination (boolean) *)
 Definition em_running (m : em) : bool :=
